@@ -104,4 +104,18 @@ def interpNDP (mode : Nat) (alignCorners nearest : Bool) (shape : List Nat) (img
     if idx.length = shape.length ∧ (idx.zip shape).all (fun (i, s) => decide (0 ≤ i ∧ i < (s : Int)))
     then img (ravel shape (idx.map Int.toNat)) else 0)
 
+/-! ### `SliceProjectionOp`: the fraction of a slice pixel's support that lies inside the volume (zero padding) -/
+/-- sum of a list -/
+def sumR (l : List Rat) : Rat := l.foldl (· + ·) 0
+/-- the weights of the candidate points of one slice pixel that lie inside the volume (`mask`), the others replaced by 0 -/
+def inView (w : List Rat) (mask : List Bool) : List Rat := (w.zip mask).map (fun p => if p.2 then p.1 else 0)
+/-- `fraction_in_view`: the weights in view over all weights -/
+def fractionInView (w : List Rat) (mask : List Bool) : Rat := sumR (inView w mask) / sumR w
+/-- `fraction_in_view` AS SHIPPED (before the repair): the number of candidate points with positive weight in view over their number -/
+def fractionInViewShipped (w : List Rat) (mask : List Bool) : Rat :=
+  (((w.zip mask).filter (fun p => p.2 && decide (0 < p.1))).length : Rat) / (((w.filter (fun x => decide (0 < x))).length : Nat) : Rat)
+/-- value of the slice pixel: the in-view weights, normalised to sum `frac` (`rowNorm` with their own sum), applied to the voxel values -/
+def pixelValue (frac eps : Rat) (w : List Rat) (mask : List Bool) (v : List Rat) : Rat :=
+  sumR (((inView w mask).zip v).map (fun p => rowNorm frac (sumR (inView w mask)) eps p.1 * p.2))
+
 end M
